@@ -128,3 +128,139 @@ Proof.
   exists ex_D1, ex_d, [1; 2], [2; 1]. split; [apply perm_swap|].
   intros E. apply (f_equal po_u) in E. vm_compute in E. discriminate.
 Qed.
+
+(* ---- θ′ is canonical: any delivery order of the pair set gives the same sequence ------------------- *)
+Lemma bytes_ltb_irrefl a : bytes_ltb a a = false.
+Proof. induction a as [|x a IH]; cbn; [reflexivity|]. rewrite N.ltb_irrefl, N.eqb_refl, IH. reflexivity. Qed.
+
+Lemma bytes_ltb_total_or_eq a b : bytes_ltb a b = true \/ bytes_ltb b a = true \/ a = b.
+Proof.
+  revert b; induction a as [|x a IH]; intros [|y b]; cbn; auto.
+  destruct (N.ltb_spec x y); [auto|]. destruct (N.ltb_spec y x); [auto|].
+  assert (x = y) by lia. subst y. rewrite N.eqb_refl. cbn.
+  destruct (IH b) as [H1|[H1|H1]]; auto. subst; auto.
+Qed.
+
+Lemma bytes_ltb_asym a b : bytes_ltb a b = true -> bytes_ltb b a = false.
+Proof.
+  revert b; induction a as [|x a IH]; intros [|y b]; cbn; try discriminate; auto.
+  intros H. apply orb_true_iff in H. destruct H as [H|H].
+  - apply N.ltb_lt in H. destruct (N.ltb_spec y x); [lia|]. destruct (N.eqb_spec y x); [lia|reflexivity].
+  - apply andb_true_iff in H. destruct H as [E H]. apply N.eqb_eq in E. subst y.
+    rewrite N.ltb_irrefl, N.eqb_refl. cbn. now apply IH.
+Qed.
+
+Lemma bytes_ltb_trans a b c : bytes_ltb a b = true -> bytes_ltb b c = true -> bytes_ltb a c = true.
+Proof.
+  revert b c; induction a as [|x a IH]; intros [|y b] [|z c]; cbn; try discriminate; auto.
+  intros H1 H2. apply orb_true_iff in H1. apply orb_true_iff in H2. apply orb_true_iff.
+  destruct H1 as [H1|H1], H2 as [H2|H2].
+  - left. apply N.ltb_lt in H1, H2. apply N.ltb_lt. lia.
+  - apply andb_true_iff in H2. destruct H2 as [E _]. apply N.eqb_eq in E. subst. now left.
+  - apply andb_true_iff in H1. destruct H1 as [E _]. apply N.eqb_eq in E. subst. now left.
+  - apply andb_true_iff in H1, H2. destruct H1 as [E1 H1], H2 as [E2 H2]. apply N.eqb_eq in E1, E2. subst.
+    right. rewrite N.eqb_refl. cbn. eapply IH; eassumption.
+Qed.
+
+Definition pair_le (x y : N * bytes) : Prop := pair_leb x y = true.
+
+Lemma pair_leb_total x y : pair_leb x y = true \/ pair_leb y x = true.
+Proof.
+  unfold pair_leb, bytes_leb. destruct x as [a u], y as [b v]; cbn [fst snd].
+  destruct (N.ltb_spec a b); [now left|]. destruct (N.ltb_spec b a); [now right|].
+  assert (a = b) by lia. subst b. rewrite N.eqb_refl. cbn.
+  destruct (bytes_ltb v u) eqn:E; cbn; [right|now left].
+  now rewrite (bytes_ltb_asym _ _ E).
+Qed.
+
+Lemma pair_leb_antisym x y : pair_leb x y = true -> pair_leb y x = true -> x = y.
+Proof.
+  unfold pair_leb, bytes_leb. destruct x as [a u], y as [b v]; cbn [fst snd]. intros H1 H2.
+  destruct (N.lt_trichotomy a b) as [L|[E|L]].
+  - apply N.ltb_lt in L as L1. assert (b <? a = false) as L2 by (apply N.ltb_ge; lia).
+    assert (b =? a = false) as L3 by (apply N.eqb_neq; lia). rewrite L2, L3 in H2. discriminate.
+  - subst b. rewrite N.ltb_irrefl, N.eqb_refl in H1, H2. cbn in H1, H2.
+    destruct (bytes_ltb_total_or_eq u v) as [H|[H|H]];
+      [rewrite H in H2; discriminate|rewrite H in H1; discriminate|now subst].
+  - apply N.ltb_lt in L as L1. assert (a <? b = false) as L2 by (apply N.ltb_ge; lia).
+    assert (a =? b = false) as L3 by (apply N.eqb_neq; lia). rewrite L2, L3 in H1. discriminate.
+Qed.
+
+Lemma pair_leb_trans x y z : pair_leb x y = true -> pair_leb y z = true -> pair_leb x z = true.
+Proof.
+  unfold pair_leb, bytes_leb. destruct x as [a u], y as [b v], z as [c w]; cbn [fst snd]. intros H1 H2.
+  destruct (N.ltb_spec a b), (N.ltb_spec b c); cbn in H1, H2.
+  - destruct (N.ltb_spec a c); [reflexivity|lia].
+  - destruct (N.eqb_spec b c); [|discriminate]. subst. destruct (N.ltb_spec a c); [reflexivity|lia].
+  - destruct (N.eqb_spec a b); [|discriminate]. subst. destruct (N.ltb_spec b c); [reflexivity|lia].
+  - destruct (N.eqb_spec a b); [|discriminate]. destruct (N.eqb_spec b c); [|discriminate]. subst.
+    rewrite N.ltb_irrefl, N.eqb_refl. cbn in *.
+    destruct (bytes_ltb w u) eqn:E; [|reflexivity]. exfalso.
+    (* w < u, not v < u, not w < v : by totality u <= v <= w, contradiction with w < u *)
+    destruct (bytes_ltb v u) eqn:E1; [discriminate|]. destruct (bytes_ltb w v) eqn:E2; [discriminate|].
+    destruct (bytes_ltb_total_or_eq u v) as [A|[A|A]]; [|congruence|].
+    + destruct (bytes_ltb_total_or_eq v w) as [B|[B|B]]; [|congruence|].
+      * pose proof (bytes_ltb_trans _ _ _ A B) as C. rewrite (bytes_ltb_asym _ _ C) in E. discriminate.
+      * subst w. rewrite (bytes_ltb_asym _ _ A) in E. discriminate.
+    + subst v. destruct (bytes_ltb_total_or_eq u w) as [B|[B|B]]; [|congruence|].
+      * rewrite (bytes_ltb_asym _ _ B) in E. discriminate.
+      * subst w. rewrite bytes_ltb_irrefl in E. discriminate.
+Qed.
+
+Lemma insertP_perm x l : Permutation (insertP pair_leb x l) (x :: l).
+Proof.
+  induction l as [|y t IH]; cbn [insertP]; [reflexivity|].
+  destruct (pair_leb x y); [reflexivity|]. rewrite IH. apply perm_swap.
+Qed.
+
+Lemma sortP_perm l : Permutation (sortP pair_leb l) l.
+Proof.
+  induction l as [|x t IH]; cbn [sortP fold_right]; [reflexivity|].
+  fold (sortP pair_leb t). rewrite insertP_perm. now constructor.
+Qed.
+
+Lemma insertP_sorted x l : StronglySorted pair_le l -> StronglySorted pair_le (insertP pair_leb x l).
+Proof.
+  induction l as [|y t IH]; intros S; cbn [insertP].
+  - repeat constructor.
+  - destruct (pair_leb x y) eqn:E.
+    + constructor; [assumption|]. inversion S as [|? ? St Fa]; subst. constructor; [exact E|].
+      eapply Forall_impl; [|exact Fa]. intros z Hz. unfold pair_le in *. eapply pair_leb_trans; eassumption.
+    + inversion S as [|? ? St Fa]; subst. constructor; [now apply IH|].
+      rewrite (insertP_perm x t). constructor; [|assumption].
+      destruct (pair_leb_total x y) as [H|H]; [congruence|exact H].
+Qed.
+
+Lemma sortP_sorted l : StronglySorted pair_le (sortP pair_leb l).
+Proof.
+  induction l as [|x t IH]; cbn [sortP fold_right]; [constructor|]. fold (sortP pair_leb t). now apply insertP_sorted.
+Qed.
+
+Lemma sortedP_perm_eq l1 l2 :
+  StronglySorted pair_le l1 -> StronglySorted pair_le l2 -> Permutation l1 l2 -> l1 = l2.
+Proof.
+  revert l2; induction l1 as [|a t1 IH]; intros l2 S1 S2 P.
+  - apply Permutation_nil in P. now subst.
+  - destruct l2 as [|b t2]; [apply Permutation_sym, Permutation_nil in P; discriminate|].
+    inversion S1 as [|? ? St1 F1]; inversion S2 as [|? ? St2 F2]; subst.
+    assert (Hab : a = b).
+    { assert (In a (b :: t2)) as Ia by (eapply Permutation_in; [exact P|now left]).
+      assert (In b (a :: t1)) as Ib by (eapply Permutation_in; [apply Permutation_sym; exact P|now left]).
+      destruct Ia as [->|Ia]; [reflexivity|]. destruct Ib as [->|Ib]; [reflexivity|].
+      rewrite Forall_forall in F1, F2. apply pair_leb_antisym; [apply F1, Ib|apply F2, Ia]. }
+    subst b. f_equal. apply IH; try assumption. eapply Permutation_cons_inv; exact P.
+Qed.
+
+Theorem theta_canonical l1 l2 : Permutation l1 l2 -> theta_of l1 = theta_of l2.
+Proof.
+  intros P. unfold theta_of. apply sortedP_perm_eq; try apply sortP_sorted.
+  rewrite (sortP_perm l1), (sortP_perm l2). exact P.
+Qed.
+
+(* without the tie-break on the hash the sequence depends on the delivery order *)
+Theorem theta_service_only_refuted :
+  exists l1 l2, Permutation l1 l2 /\ sortP service_only_leb l1 <> sortP service_only_leb l2.
+Proof.
+  exists [(7, [1]); (7, [2])], [(7, [2]); (7, [1])]. split; [apply perm_swap|].
+  vm_compute. discriminate.
+Qed.
